@@ -20,7 +20,8 @@
 EXTENDS Naturals, Sequences, FiniteSets, Text
 
 CONSTANTS PathDot,   \* "fixed": the path converter admits LF inside a value; "orig": its '.' stops at LF
-          AnyQuote   \* "fixed": any-converter items are percent-encoded like every other text; "orig": emitted raw
+          AnyQuote,  \* "fixed": any-converter items are percent-encoded like every other text; "orig": emitted raw
+          KeyDefaults \* "count": build_compare_key orders by the number of defaults (as documented); "flag": only by having any
 
 SLASH == 47
 QM == 63
@@ -40,7 +41,7 @@ QrySafe == {c \in 0..127 : Unreserved(c)} \cup {33, 36, 39, 40, 41, 42, 44, 47, 
 SegQuote(text) == PctEncode(Utf8Enc(text), SegSafe)
 QuotePlus(text) == LET enc == PctEncode(Utf8Enc(text), QrySafe \cup {SP})
                    IN [i \in 1..Len(enc) |-> IF enc[i] = SP THEN PLUS ELSE enc[i]]
-Unquote(s) == Utf8Dec(PctDecode(s))
+Unquote(s) == Utf8Dec(PctDecode(Utf8Enc(s)))   \* raw non-ASCII in a URL stands for its UTF-8 bytes (urllib.unquote)
 UnquotePlus(s) == Utf8Dec(PctDecode([i \in 1..Len(s) |-> IF s[i] = PLUS THEN SP ELSE s[i]]))
 
 IsDigit(c) == c >= 48 /\ c <= 57
@@ -149,8 +150,9 @@ InDomain(r, vals) ==
                          ELSE n \in Names(vals) /\ Accepts(ConvOf(r, n), ValOf(vals, n))
 
 \* Map.update sorts the rules of an endpoint by build_compare_key = (alias, -|arguments|, -|defaults|), stably
+DefKey(r) == IF KeyDefaults = "count" THEN Len(r.defaults) ELSE IF Len(r.defaults) > 0 THEN 1 ELSE 0
 BuildKeyLess(r1, r2) == \/ Cardinality(Args(r1)) > Cardinality(Args(r2))
-                        \/ Cardinality(Args(r1)) = Cardinality(Args(r2)) /\ Len(r1.defaults) > Len(r2.defaults)
+                        \/ Cardinality(Args(r1)) = Cardinality(Args(r2)) /\ DefKey(r1) > DefKey(r2)
 Before(rules, i, j) == BuildKeyLess(rules[i], rules[j]) \/ (~BuildKeyLess(rules[j], rules[i]) /\ i < j)
 Candidates(rules, ep, vals) == {i \in 1..Len(rules) : rules[i].ep = ep /\ Suitable(rules[i], vals)}
 \* index of the rule MapAdapter.build uses (0: BuildError); host matching prefers a rule on the bound host
@@ -279,8 +281,12 @@ Redirected(m, i, S) ==
      /\ j # i /\ m.rules[j].ep = m.rules[i].ep /\ Len(m.rules[j].defaults) > 0 /\ Before(m.rules, j, i)
      /\ Args(m.rules[j]) = Args(m.rules[i]) /\ m.rules[j].segs # m.rules[i].segs /\ SuitableSet(m.rules[j], S)
 
+\* MapAdapter.match collapses leading slashes ("//a" is "/a")
+RECURSIVE OneLead(_)
+OneLead(p) == IF Len(p) >= 2 /\ p[1] = SLASH /\ p[2] = SLASH THEN OneLead(Tail(p)) ELSE p
 \* set of matches (at most one for non-overlapping rules): [rule, ep, vals]
-MatchM(m, dom, path) ==
+MatchM(m, dom, path0) ==
+  LET path == OneLead(path0) IN
   {x \in {[rule |-> i, ep |-> m.rules[i].ep, vals |-> RuleVals(m.rules[i], path)] :
              i \in {j \in 1..Len(m.rules) : m.rules[j].dom = dom /\ RuleAdmits(m.rules[j], path, FALSE)}} :
      ~Redirected(m, x.rule, x.vals)}
